@@ -5,4 +5,4 @@ Require Import ZV.Model.Json ZV.Model.Msgpack.
 Extraction "model.ml" Z.add Z.mul Z.opp Z.div_eucl Z.of_nat Z.to_nat Z.compare
   to_json json_quote json_parse tree_of of_tree unjson norm wf data no_reserved_keys sym_keys
   pstr fix_str float_token str_eqb int_token run_ops
-  msgpack_bytes unmsgpack_bytes unjson_go gtree_of gt_ok mp_decode mp_bytes.
+  msgpack_bytes unmsgpack_bytes unjson_go gtree_of gt_ok mp_decode mp_bytes go_of_tree sexp_of_go.
